@@ -48,6 +48,8 @@ from . import c09_formulas      # noqa
 from . import c12_lsml          # noqa
 
 
+unit('C06', 'base_metric:BaseMetricLearner._prepare_inputs')     # malformed input is rejected against the CURRENT preprocessor (set_params histories)
+
 # C18 "the value passed is stored untouched ... also via set_params": the functions that could write into a hyper-parameter array or keep
 # using a value replaced by set_params are part of the C18 check (ownership / freshness / built-from-the-current-parameter clauses)
 for _t in ('base_metric:BaseMetricLearner._check_preprocessor', 'lsml:_BaseLSML._fit', '_util:_initialize_metric_mahalanobis',
